@@ -22,7 +22,9 @@ import (
 )
 
 var kinds = []string{"ifStmt0", "ifStmt1", "ifStmt2", "ifStmt3", "forStmt0", "forStmt1", "forStmt2", "forStmt3",
-	"forStmt4", "forStmt5", "forStmt6", "forStmt7", "landExpr", "lorExpr", "breakStmt", "continueStmt", "parenExpr"}
+	"forStmt4", "forStmt5", "forStmt6", "forStmt7", "landExpr", "lorExpr", "breakStmt", "continueStmt", "parenExpr",
+	// the clause wiring of switch statements (hand-transcribed in Model/Cfg.lean: Clauses, fallthrough, break out of a switch)
+	"switchStmt", "switchIfStmt"}
 
 func clauseHash(cc *ast.CaseClause) string {
 	var b bytes.Buffer
